@@ -38,7 +38,11 @@ pub fn parse_op(line: &str) -> Option<Op> {
                 i += 2;
             }
         } else {
-            args.push(tok.parse::<i128>().ok()?);
+            // values in [2^127, 2^128) (IPv6 addresses) are kept as their two's-complement i128
+            match tok.parse::<i128>() {
+                Ok(v) => args.push(v),
+                Err(_) => args.push(tok.parse::<u128>().ok()? as i128),
+            }
         }
     }
     Some(Op { tag, args })
@@ -46,10 +50,16 @@ pub fn parse_op(line: &str) -> Option<Op> {
 
 /// Observation of one operation.
 #[derive(Default)]
-pub struct Obs(pub Vec<i128>);
+pub struct Obs(pub Vec<i128>, pub Vec<usize>);
 impl Obs {
     pub fn new() -> Self {
-        Obs(Vec::new())
+        Obs(Vec::new(), Vec::new())
+    }
+    /// an unsigned 128-bit value (printed as unsigned even above i128::MAX)
+    pub fn push_u128(&mut self, v: u128) -> &mut Self {
+        self.1.push(self.0.len());
+        self.0.push(v as i128);
+        self
     }
     pub fn push<T: Into<i128>>(&mut self, v: T) -> &mut Self {
         self.0.push(v.into());
@@ -163,9 +173,13 @@ pub fn run<S>(
             Ok(obs) => {
                 let mut s = String::with_capacity(2 + obs.0.len() * 4);
                 s.push('=');
-                for v in &obs.0 {
+                for (k, v) in obs.0.iter().enumerate() {
                     s.push(' ');
-                    s.push_str(&v.to_string());
+                    if obs.1.contains(&k) {
+                        s.push_str(&(*v as u128).to_string());
+                    } else {
+                        s.push_str(&v.to_string());
+                    }
                 }
                 writeln!(out, "{s}").unwrap();
             }
